@@ -127,7 +127,7 @@ def _r12_1(prog: Program, res: Result) -> None:
         if isinstance(s, ast.If) and isinstance(s.test, ast.Call) and isinstance(s.test.func, ast.Name) and s.test.func.id == "isinstance" \
                 and len(s.test.args) == 2 and isinstance(s.test.args[1], ast.Name) and s.test.args[1].id in ("ZeroOrOne", "ZeroOrMany", "OneOrMany"):
             for a in s.body:
-                if isinstance(a, ast.Assign) and isinstance(a.targets[0], ast.Name) and a.targets[0].id == "suffix" and isinstance(a.value, ast.Constant):
+                if isinstance(a, ast.Assign) and isinstance(a.targets[0], ast.Name) and isinstance(a.value, ast.Constant) and a.value.value in ("?", "*", "+"):
                     cls = s.test.args[1].id
                     ok = SUFFIX.get(a.value.value) == cls
                     res.decide(ok, "R12.1", fn.loc(a), fn.fq, f"placeholder suffix for {cls}: {a.value.value!r}",
@@ -137,8 +137,12 @@ def _r12_1(prog: Program, res: Result) -> None:
     length = fn2.posparams[1] if len(fn2.posparams) > 1 else "length"
     seen = set()
     first_phase = True
+    slack = "slack"
     for s in fn2.node.body:
-        if isinstance(s, ast.Assign) and isinstance(s.targets[0], ast.Name) and s.targets[0].id == "slack":
+        # the slack: `<name> = length - <sum of the minimum counts>`, computed between the two passes over the template
+        if isinstance(s, ast.Assign) and isinstance(s.targets[0], ast.Name) and isinstance(s.value, ast.BinOp) and isinstance(s.value.op, ast.Sub) \
+                and norm(s.value.left) == length:
+            slack = s.targets[0].id
             first_phase = False
         if isinstance(s, ast.For):
             for cls, tup, node_ in _isinstance_tuple_assigns(s.body):
@@ -149,8 +153,8 @@ def _r12_1(prog: Program, res: Result) -> None:
                 if first_phase:
                     want = {"ZeroOrOne": ("0", "1"), "ZeroOrMany": ("0", length), "OneOrMany": ("1", length), "plain": ("1", "1")}[cls]
                 else:
-                    want = {"ZeroOrMany": ("0", "slack"), "OneOrMany": ("1", "1 + slack"), "ZeroOrOne": ("0", "1"), "plain": ("1", "1")}[cls]
-                ok = (lo, hi.replace("slack + 1", "1 + slack")) == want
+                    want = {"ZeroOrMany": ("0", slack), "OneOrMany": ("1", f"1 + {slack}"), "ZeroOrOne": ("0", "1"), "plain": ("1", "1")}[cls]
+                ok = (lo, hi.replace(f"{slack} + 1", f"1 + {slack}")) == want
                 seen.add((phase, cls))
                 res.decide(ok, "R12.1", fn2.loc(node_), fn2.fq, f"repetitions of {cls} ({phase}): ({lo}, {hi})",
                            f"{cls} = {DECLARATIVE[cls]} (inf bounded by {want[1]})" if ok else f"{cls} must repeat {want}, found ({lo}, {hi})")
@@ -172,8 +176,14 @@ def _r12_1(prog: Program, res: Result) -> None:
                     effects.setdefault(cls, {})[a.targets[0].id] = "=" + norm(a.value)
     inits = [s for s in fn3.node.body if isinstance(s, ast.Assign) and len(s.targets) == 2]
     base_ok = any(norm(s.value).replace(" ", "") == f"len({fn3.posparams[1]})" for s in inits)
-    mins = [t.id for s in inits for t in s.targets if isinstance(t, ast.Name) and "min" in t.id]
-    maxs = [t.id for s in inits for t in s.targets if isinstance(t, ast.Name) and "max" in t.id]
+    # which of the two counters is the minimum and which the maximum is read off the filter `not MIN <= len(..) <= MAX`
+    mins, maxs = [], []
+    both = {t.id for s in inits for t in s.targets if isinstance(t, ast.Name)}
+    for s in fn3.node.body:
+        t = s.test.operand if isinstance(s, ast.If) and isinstance(s.test, ast.UnaryOp) and isinstance(s.test.op, ast.Not) else None
+        if isinstance(t, ast.Compare) and len(t.ops) == 2 and all(isinstance(o, (ast.LtE, ast.Lt)) for o in t.ops) \
+                and isinstance(t.left, ast.Name) and isinstance(t.comparators[1], ast.Name) and {t.left.id, t.comparators[1].id} <= both:
+            mins, maxs = [t.left.id], [t.comparators[1].id]
     if not (base_ok and mins and maxs):
         res.undecided("R12.1", fn3.loc(), fn3.fq, "length filter", "min/max initialisation not recognised")
     else:
@@ -346,9 +356,13 @@ def _r12_4(prog: Program, res: Result) -> None:
     rets = [r for r in walk_own(fn.node) if isinstance(r, ast.Return) and r.value is not None and norm(r.value) not in ("()",)]
     for r in rets:
         if norm(r.value).startswith("(") and norm(r.value).endswith(",)"):
-            # `(root,)`: no wildcards were bound, nothing to be consistent about
-            worlds = pa.worlds_at(r)
-            ok = bool(worlds) and all(any(f[0] == "lit" and not f[2] and f[1].startswith("namedtuple_matches") or (f[0] == "lit" and not f[2] and "matches" in f[1]) for f in w.facts) for w in worlds)
+            # `(root,)`: no wildcards were bound, nothing to be consistent about - reached only when the collection
+            # handed to the consistency test is empty
+            coll = None
+            for c in prog.calls_in(fn):
+                if norm(c.func).endswith("_all_fields_consistent") and c.args and isinstance(c.args[0], ast.Name):
+                    coll = c.args[0].id
+            ok = coll is not None and pa.reached(r) and pa.holds_at(r, lambda w: pa.formula(ast.Name(id=coll, ctx=ast.Load()), w, False))[0]
             res.decide(ok, "R12.4", fn.loc(r), fn.fq, norm(r), "returned only when no child bound a wildcard" if ok else "plain success is returned although wildcard bindings exist")
             continue
         worlds = pa.worlds_at(r)
@@ -395,12 +409,25 @@ def _r12_4(prog: Program, res: Result) -> None:
     # _match_wildcard binds the node matched by the wildcard's own template
     fn5 = prog.func("core", "_match_wildcard")
     t5 = norm(fn5.node)
-    ok = f"match_template({fn5.posparams[0]}, {fn5.posparams[1]}.template" in t5 and "if len(template_match) == 1 else ()" in t5
+    inner = [c for c in prog.calls_in(fn5) if norm(c.func) == "match_template" and len(c.args) >= 2
+             and norm(c.args[0]) == fn5.posparams[0] and norm(c.args[1]) == f"{fn5.posparams[1]}.template"]
+    mvar = None
+    for c in inner:
+        st = parent(c)
+        if isinstance(st, ast.Assign) and isinstance(st.targets[0], ast.Name):
+            mvar = st.targets[0].id
+    rets5 = [r for r in walk_own(fn5.node) if isinstance(r, ast.Return) and isinstance(r.value, ast.IfExp)]
+    ok = bool(inner) and mvar is not None and any(norm(r.value.test) == f"len({mvar}) == 1" and norm(r.value.orelse) == "()" and f"{mvar}[0]" in norm(r.value.body) for r in rets5)
     res.decide(ok, "R12.4", fn5.loc(), fn5.fq, "wildcard", "binds the node only if it matches the wildcard's template" if ok else "wildcards no longer check their own template")
     # _match_set: every element must match one of the alternatives
     fn6 = prog.func("core", "_match_set")
     t6 = norm(fn6.node)
-    ok = "for node_child in node" in t6 and "tuple(template)" in t6 and "merge_matches(" in t6 and f"isinstance({fn6.posparams[0]}, list)" in t6
+    p_node, p_tmpl = fn6.posparams[0], fn6.posparams[1]
+    gens = [g for g in walk_own(fn6.node) if isinstance(g, (ast.GeneratorExp, ast.ListComp)) and len(g.generators) == 1
+            and norm(g.generators[0].iter) == p_node and not g.generators[0].ifs and isinstance(g.generators[0].target, ast.Name)
+            and isinstance(g.elt, ast.Call) and norm(g.elt.func) == "match_template" and len(g.elt.args) >= 2
+            and norm(g.elt.args[0]) == g.generators[0].target.id and norm(g.elt.args[1]) == f"tuple({p_tmpl})"]
+    ok = bool(gens) and "merge_matches(" in t6 and f"isinstance({p_node}, list)" in t6
     res.decide(ok, "R12.4", fn6.loc(), fn6.fq, "set template", "every element matches one of the alternatives" if ok else "set templates changed meaning")
 
 
